@@ -337,8 +337,7 @@ def body_raise(case):
         require(after == before, f"intermediate writing disabled, but the simulation created {[os.path.relpath(x, tmp) for x in after if x not in before]}")
         # ... also when a stage is interrupted (Ctrl-C, an error): still nothing on disk
         stage_tags = [t for _, _, t in model if not t.endswith("_meta")]
-        if stage_tags:
-            tag = stage_tags[case["picks"][0] % len(stage_tags)]
+        for tag in stage_tags:  # every stage in turn
             exc = FAULT_TYPES[case.get("exc", "Exception")]
             out_i = os.path.join(tmp, "interrupted" + case.get("ext", ".fits"))
             before = listing()
@@ -448,6 +447,9 @@ def _exhaustive_defaults(tier):
     yield dict(_default_case("Diffuse"), ext="", optical=False, kinds=["write"])
     yield dict(_default_case("Diffuse"), ext=".ecsv", optical=False, kinds=["write"])
     yield dict(_default_case("Target"), aim=None, ra=0.0, dec=1.55, lat=1.55)
+    # a mountain-top instrument and bright showers: many decays above the instrument, many events with signal
+    yield dict(_default_case("Diffuse"), det=1.0, n=250, spectrum={"id": "monospectrum", "log_nu_energy": 10.0}, radio=False, kinds=["write"])
+    yield dict(_default_case("Diffuse"), det=5.0, n=250, spectrum={"id": "monospectrum", "log_nu_energy": 10.5}, kinds=["write"])
 
 
 SUBCHECKS = [
